@@ -138,7 +138,7 @@ func newUnit(prog *Program, fi *FuncInfo, blk *Block, prop string, suffix string
 		Name: prop + "/" + fi.Key, Suffix: suffix, obIdx: map[string]*Obligation{}, structs: map[string]*StructInfo{},
 		strUsed: map[string]bool{}, errUsed: map[string]bool{}, Assumed: map[string]bool{}, inlined: map[string]bool{},
 		usedContracts: map[string]string{}, addrTaken: map[types.Object]Term{}, modifiesRefs: map[string][]Term{}, poolObjs: map[string]Term{},
-		knownLits: map[string]*litInfo{}, ghosts: map[string]types.Object{}, heapSorts: map[string]Sort{}}
+		knownLits: map[string]*litInfo{}, ghosts: map[string]types.Object{}, heapSorts: map[string]Sort{}, ghostTy: map[string]types.Type{}}
 	u.BV = blk != nil && blk.Arith == "bv"
 	return u
 }
@@ -369,22 +369,41 @@ var _ = token.NoPos
 // ghost variables: declared in the function block as "ghost <name> <smt sort>"; they are ordinary symbolic
 // variables of the verifier that no Go statement can touch. In a caller they are fresh (existential witnesses).
 func parseGhostDecl(text string) (string, Sort) {
+	n, s, _ := parseGhostDecl3(text)
+	return n, s
+}
+
+// "name <smt sort> [of <spec expr giving the Go type of the elements>]"
+func parseGhostDecl3(text string) (string, Sort, string) {
 	text = strings.TrimSpace(text)
 	i := strings.IndexAny(text, " \t")
 	if i < 0 {
 		panic(unsupported{"bad ghost declaration: " + text})
 	}
-	return text[:i], Sort(strings.TrimSpace(text[i+1:]))
+	rest := strings.TrimSpace(text[i+1:])
+	of := ""
+	if j := strings.Index(rest, " of "); j >= 0 {
+		of = strings.TrimSpace(rest[j+4:])
+		rest = strings.TrimSpace(rest[:j])
+	}
+	return text[:i], Sort(rest), of
 }
 
 func (u *Unit) declareGhosts(env *Env, blk *Block) {
 	for _, cl := range blk.Of("ghost") {
-		name, sort := parseGhostDecl(cl.Text)
+		name, sort, of := parseGhostDecl3(cl.Text)
 		obj := types.NewVar(token.NoPos, nil, name, nil)
 		u.ghosts[name] = obj
 		t := u.D.Fresh("ghost_"+name, sort)
 		env.vars[obj] = t
 		u.entry.vars[obj] = t
+		if of != "" {
+			save := u.inSpec
+			u.inSpec = true
+			v := u.sv(u.parseSpec(Clause{Text: of, File: cl.File, Line: cl.Line}), env, u.ownCtx)
+			u.inSpec = save
+			u.ghostTy[name] = &ghostArr{elem: v.Ty}
+		}
 	}
 }
 
